@@ -284,19 +284,20 @@ def run(ctx):
         gen_and_replay(ctx, acc, "msg_n2_d8", gen_cfg(2, 1, 0, 0, 2, ("skew", "out"), 9, False))
     else:
         gen_and_replay(ctx, acc, "atomic_n3_d4", gen_cfg(3, 1, 1, 1, 1, ALL_TOPOS, 5, True))
-        gen_and_replay(ctx, acc, "atomic_n3_d5", gen_cfg(3, 1, 1, 0, 1, ("hub", "skew"), 6, True))
+        gen_and_replay(ctx, acc, "atomic_n3_d5", gen_cfg(3, 1, 1, 0, 1, ("hub", "skew"), 6, True), keep=0.5)
         gen_and_replay(ctx, acc, "atomic_n2_d6", gen_cfg(2, 1, 1, 1, 1, ALL_TOPOS, 7, True))
         gen_and_replay(ctx, acc, "msg_n3_d6", gen_cfg(3, 1, 1, 1, 2, ("skew",), 7, False))
-        gen_and_replay(ctx, acc, "msg_n3_d6_hub", gen_cfg(3, 1, 0, 0, 2, ("hub",), 7, False))
-        gen_and_replay(ctx, acc, "msg_n2_d9", gen_cfg(2, 1, 0, 0, 2, ("skew", "out"), 10, False))
-        gen_and_replay(ctx, acc, "msg_n3_d8_msgonly", gen_cfg(3, 1, 0, 0, 2, ("skew",), 9, False), keep=0.25)
-        # deeper / wider by simulation
+        gen_and_replay(ctx, acc, "msg_n3_d6_hub", gen_cfg(3, 1, 0, 0, 2, ("hub",), 7, False), keep=0.5)
+        gen_and_replay(ctx, acc, "msg_n2_d9", gen_cfg(2, 1, 0, 0, 2, ("skew", "out"), 10, False), keep=0.5)
+        gen_and_replay(ctx, acc, "msg_n3_d8_msgonly", gen_cfg(3, 1, 0, 0, 2, ("skew",), 9, False), keep=0.2)
+        # deeper / wider by simulation (num is per TLC worker; TLC evaluates Emit on every
+        # candidate successor, so each trace yields all its depth-Depth continuations)
         gen_and_replay(ctx, acc, "sim_atomic_n4_d12", gen_cfg(4, 2, 1, 1, 1, ALL_TOPOS, 13, True),
-                       simulate="num=20000", depth=14)
+                       simulate="num=400", depth=14)
         gen_and_replay(ctx, acc, "sim_msg_n3_d14", gen_cfg(3, 2, 1, 1, 2, ALL_TOPOS, 15, False),
-                       simulate="num=20000", depth=16)
+                       simulate="num=400", depth=16)
         gen_and_replay(ctx, acc, "sim_msg_n4_d16", gen_cfg(4, 1, 1, 1, 2, ("hub", "skew", "self"), 17, False),
-                       simulate="num=20000", depth=18)
+                       simulate="num=300", depth=18)
 
     # ------------------------------------------------------------ 3. Restart bound to cluster.Open
     restart_rows, restart_drift, restart_dead = [], [], None
